@@ -305,7 +305,18 @@ def api_signatures(trees) -> dict:
                 if "staticmethod" not in deco and names:
                     names = names[1:]
                 sigs.setdefault(fn.name, []).append(names)
+    # constructors: class name -> parameters of __init__ (class names defined once)
+    ctor = {}
+    for tree in trees:
+        for cls in ast.walk(tree):
+            if isinstance(cls, ast.ClassDef):
+                for fn in cls.body:
+                    if isinstance(fn, ast.FunctionDef) and fn.name == "__init__":
+                        ctor.setdefault(cls.name, []).append([x.arg for x in fn.args.posonlyargs + fn.args.args][1:])
     out = {}
+    for cname, defs in ctor.items():
+        if len(defs) == 1 and defs[0] and cname not in sigs:
+            out["<ctor>" + cname] = defs[0]
     for name, defs in sigs.items():
         n = min(len(d) for d in defs)
         pre = []
@@ -329,9 +340,14 @@ class ArgForm(ast.NodeTransformer):
     def visit_Call(self, node: ast.Call):
         self.generic_visit(node)
         f = node.func
-        if not isinstance(f, ast.Attribute) or f.attr not in self.sigs or any(isinstance(a, ast.Starred) for a in node.args):
+        if any(isinstance(a, ast.Starred) for a in node.args):
             return node
-        sig = self.sigs[f.attr]
+        if isinstance(f, ast.Name) and "<ctor>" + f.id in self.sigs:
+            sig = self.sigs["<ctor>" + f.id]
+        elif isinstance(f, ast.Attribute) and f.attr in self.sigs:
+            sig = self.sigs[f.attr]
+        else:
+            return node
         kws = {k.arg: k for k in node.keywords if k.arg is not None}
         i = len(node.args)
         moved = False
